@@ -470,6 +470,7 @@ func TestC20(t *testing.T) {
 		comps := make([]comp, nc)
 		var fns []f1testing.ScenarioFn
 		var setupHandles, runHandles []*f1testing.T
+		warm := false
 		stopBias := kit.Pick(r, 0, 0, 8, 25)
 		for ci := range comps {
 			comps[ci].setup = append([]act{{5, 2*ci + 1000, 0}}, genActs(r, len(p.tab), 3, &mb, stopBias/2)...)
@@ -479,6 +480,9 @@ func TestC20(t *testing.T) {
 				setupHandles = append(setupHandles, st)
 				p.exec(st, c.setup)
 				return func(t *f1testing.T) {
+					if warm {
+						return // the warm-up iteration: every component passes, nothing is registered
+					}
 					runHandles = append(runHandles, t)
 					p.exec(t, c.run)
 				}
@@ -515,6 +519,15 @@ func TestC20(t *testing.T) {
 		if !setupFailed {
 			st := as.VerifNewIterationState()
 			tt := workers.VerifStateT(st)
+			if r.Bool() {
+				// the worker's handle has already been through an iteration that passed and left
+				// nothing behind: the iterations that follow start from a clean handle all the same
+				warm = true
+				tt.Reset("0")
+				as.Run(st)
+				warm = false
+				o.Count("handle", "recycled after a clean iteration")
+			}
 			for it := 0; it < k; it++ {
 				runHandles = runHandles[:0]
 				before := stats.Total()
